@@ -1331,6 +1331,7 @@ size_t ZSTDMT_initCStream_internal(
     mtctx->doneJobID = 0;
     mtctx->nextJobID = 0;
     mtctx->frameEnded = 0;
+    mtctx->jobReady = 0;   /* a job prepared but never posted by an abandoned frame must not be posted by this one */
     mtctx->allJobsCompleted = 0;
     mtctx->consumed = 0;
     mtctx->produced = 0;
